@@ -194,8 +194,8 @@ def protocol_scenario(rng, npeers, n, steps, weights=None):
             ops.append("bf %d %s" % (nxt, rand_bits(rng, n)))
         alive.append(nxt)
         nxt += 1
-    w = weights or {"unchoke": 5, "choke": 3, "have": 4, "done": 6, "cancel": 3, "int": 1, "nint": 1, "req": 1,
-                    "kill": 1, "bf": 1, "stats": 1, "join": 1}
+    w = weights or {"unchoke": 5, "choke": 3, "have": 5, "done": 6, "cancel": 3, "int": 1, "nint": 1, "req": 1,
+                    "kill": 1, "bf": 1, "bfsparse": 2, "stats": 1, "join": 1}
     names = list(w)
     for _ in range(steps):
         if not alive:
@@ -212,6 +212,11 @@ def protocol_scenario(rng, npeers, n, steps, weights=None):
             ops.append("req %d %d" % (a, rng.randrange(n + 1)))
         elif k == "bf":
             ops.append("bf %d %s" % (a, rand_bits(rng, n)))
+        elif k == "bfsparse":
+            # a peer re-sending a bitfield that offers (almost) nothing, in the middle of a download
+            ops.append("bf %d %s" % (a, rand_bits(rng, n, rng.choice([0.0, 0.1]))))
+            if rng.random() < 0.7:
+                ops.append("have %d %d" % (a, rng.randrange(n)))
         elif k == "stats":
             ops.append("stats %d %s %s" % (a, rng.choice(["-", "0", "5", "100"]), rng.choice(["-", "0", "7", "100"])))
         elif k == "kill":
